@@ -49,6 +49,13 @@ Theorem C01_da_end_total : forall height now i, da_inv i -> exists r, da_end tru
 Proof. exact da_end_total. Qed.
 Print Assumptions C01_da_end_total.
 
+(* the threshold function inside it is C09's model of GetZkpThreshold (compared with the keeper's
+   value on every C09 case) whenever there is an active validator *)
+Theorem C01_da_threshold_is_the_c09_model : forall rf n nact, 0 < rf -> 0 <= n <= N_MAX -> 0 < nact ->
+  zkp_threshold_c rf n nact = of_opt (Tally.zkp_threshold rf n nact).
+Proof. exact zkp_threshold_c_is_tally. Qed.
+Print Assumptions C01_da_threshold_is_the_c09_model.
+
 (* the share-class end blocker succeeds exactly when the funds are there *)
 Theorem C01_shareclass_end_total : forall now i, sc_inv now i -> exists q, sc_end now i = Ok q.
 Proof. exact sc_end_total. Qed.
